@@ -76,6 +76,8 @@ class G:
         if k < 0.7:
             op = r.choice(BIN)
             a, b = self.expr(d + 1), self.expr(d + 1)
+            if self.java:
+                a, b = ('(%s)' % a if ' ' in a else a), ('(%s)' % b if ' ' in b else b)
             if self.java and op in ('&&', '||', '==', '!=', '<', '>', '<=', '>='):
                 return '((%s) %s (%s) ? 1 : 0)' % (a, '!=' if op in ('&&', '||') else op, b) if op in ('&&', '||') else '(%s %s %s ? 1 : 0)' % (a, op, b)
             if op in ('<<', '>>'):
@@ -356,3 +358,163 @@ def gen(lang, r, nfuncs=(2, 4), depth_max=5, stmts=(2, 5), budget=50, comments=F
         L.append(Line(0, '}', 'close', ci))
     # fix opener indices of the body-local lines: block() used indices relative to its own list
     return Program(lang, L)
+
+
+# ---------------------------------------------------------------------------------------------
+# hand-written, compile-checked preambles that carry the constructs the code-modifying options look for
+
+HEADERS = {'h_zeta.h': b'#ifndef H_ZETA\n#define H_ZETA\nextern int h_zeta;\n#endif\n',
+           'h_alpha.h': b'#ifndef H_ALPHA\n#define H_ALPHA\nextern int h_alpha;\n#endif\n',
+           'h_mid.h': b'#ifndef H_MID\n#define H_MID\nextern int h_mid;\n#endif\n'}
+
+C_PREAMBLE = b'''#include <stdbool.h>
+#include "h_zeta.h"
+#include "h_alpha.h"
+#include "h_mid.h"
+#include "h_alpha.h"
+#define SQ(x) ((x) * (x))
+#define ADD3(a, b, c) \\
+   ((a) + \\
+    (b) + (c))
+#define EMPTY
+#if 0
+this branch is never compiled , it may hold anything ( { [ ] } ) ...
+#else
+enum color { RED, GREEN = 5, BLUE, };
+#endif
+enum plain { P_A, P_B };
+typedef unsigned int uint_t;
+typedef int (*fn_t)(int, int);
+struct bits { unsigned int lo : 3; unsigned hi : 5; signed int mid : 4; };
+static unsigned short int us1 = 1;
+static long int li1 = 2;
+static unsigned long long int ull1 = 3;
+static short ss1 = 4;
+static long unsigned lu1 = 5;
+static const char *str1 = "a\\tb /* not a comment */ // neither";
+static const char chr1 = '\\'';
+static int neg(int v) { return -v; };
+static int sel(int c, int a, int b)
+{
+   if (c) return a; else return (b);
+}
+static void nothing(int *o)
+{
+   *o = 1;;
+   return;
+}
+static int loops(int n)
+{
+   int t = 0;
+   while (1) { if (++t > n) break; }
+   for (;;) { if (--t < 0) break; }
+   do { t += 2; } while (t < 4);
+   return (t);
+}
+static int calls(fn_t f, int a)
+{
+   struct bits bb = { 1, 2, 3 };
+   int arr2[3] = { [0] = 1, [2] = a };
+   nothing(&a);
+   return f(SQ(a), ADD3(1, 2, a)) + bb.lo + arr2[2] + (int)sizeof(struct bits) + neg(-a) + sel(a > 1 && a < 9, a, 2) + loops(3)
+          + (int)us1 + (int)li1 + (int)ull1 + ss1 + (int)lu1 + str1[0] + chr1 + RED + P_B;
+}
+'''
+
+CPP_PREAMBLE = b'''#include "h_zeta.h"
+#include "h_alpha.h"
+#include "h_mid.h"
+#define SQ(x) ((x) * (x))
+#if 0
+never compiled ( ( { ; } ) ) ::
+#endif
+namespace pre {
+enum class Mode : int { Off, On = 3, };
+template<typename T> struct Box { T v; Box(T x) : v(x) {} T get() const { return v; } };
+template<typename T, typename U> static T conv(U u) { return static_cast<T>(u); }
+class Base { public: virtual ~Base() {} virtual int id() const { return 1; } };
+class Der : public Base
+{
+public:
+   Der(int a, int b) : m_a(a), m_b(b) {}
+   int id() const override { return m_a + m_b; }
+   int operator()(int x) const { return x * m_a; }
+private:
+   int m_a;
+   int m_b;
+};
+static unsigned long int total(const Box<Box<int>> &bb, int n)
+{
+   auto lam = [&](int z) -> int { return z + bb.get().get(); };
+   int acc = 0;
+   int vals[3] = { 1, 2, n };
+   for (auto &v : vals) { acc += lam(v); }
+   while (true) { if (++acc > 100) break; }
+   if (n > 2 && n < 50) acc -= 1; else acc += 1;
+   return (conv<unsigned long>(acc >> 1));
+}
+static int use(int n)
+{
+   Der d(n, 2);
+   Box<Box<int>> bb{Box<int>(n)};
+   const Base &b = d;
+   return b.id() + d(3) + static_cast<int>(total(bb, n)) + static_cast<int>(Mode::On) + SQ(n);
+}
+}
+'''
+
+JAVA_PREAMBLE = b'''import java.util.List;
+import java.util.ArrayList;
+import java.util.Map;
+
+'''
+
+JAVA_MEMBERS = b'''   static int pre(int n)
+   {
+      List<Integer> l = new ArrayList<Integer>();
+      l.add(n);
+      int acc = 0;
+      for (int v : l) { acc += v; }
+      while (true) { if (++acc > 100) break; }
+      if (n > 2 && n < 50) acc -= 1; else acc += 1;
+      try { acc += l.get(0); } catch (RuntimeException e) { acc = -1; } finally { acc++; }
+      synchronized (l) { acc ^= 3; }
+      return (acc);
+   }
+'''
+
+
+def program_text(lang, r, style='mixed', **kw):
+    """A complete compilable program: preamble + generated functions.  -> bytes"""
+    P = gen(lang, r, **kw)
+    body, _ = P.render(r, style=style, indent=r.choice([0, 2, 3, 4, 8]))
+    if lang == 'C':
+        return C_PREAMBLE + body.replace(b'#include <stdbool.h>\n', b'', 1)
+    if lang == 'CPP':
+        return CPP_PREAMBLE + body
+    if lang == 'JAVA':
+        # members of the preamble go inside class Gen, right after its opening brace
+        marker = b'public class Gen'
+        i = body.index(marker)
+        j = body.index(b'{', i) + 1
+        return JAVA_PREAMBLE + body[:j] + b'\n' + JAVA_MEMBERS + body[j:]
+    raise ValueError(lang)
+
+
+INACTIVE_UNBALANCED = b'''#if 0
+an inactive branch may hold anything ( {
+#endif
+int active_code(int a)
+{
+   return a + 1;
+}
+'''
+
+INACTIVE_GARBAGE = b'''#if 0
+an inactive branch may hold any character: ` $ @
+#endif
+int active_code2(int a)
+{
+   return a + 2;
+}
+'''
